@@ -26,6 +26,9 @@ const KeyDeadlock = "C18/restore-commit-vs-watchlist-lock-order-deadlock"
 var (
 	Progress atomic.Int64
 	Current  atomic.Pointer[Prog]
+	// ProofDisabled is set once a proven deadlock has been reported and its goroutines were abandoned: from then on
+	// a stack dump of the process always contains the cycle, so it proves nothing about later cases.
+	ProofDisabled atomic.Bool
 )
 
 var goroutineRe = regexp.MustCompile(`(?m)^goroutine \d+ `)
@@ -111,7 +114,7 @@ func Watchdog(rec *verifkit.Rec) (stop func()) {
 			if time.Since(since) < 3*time.Second {
 				continue
 			}
-			if ok, proof := DeadlockProof(); ok {
+			if ok, proof := DeadlockProof(); ok && !ProofDisabled.Load() {
 				c := rec.NewCase()
 				if p := Current.Load(); p != nil {
 					c.Op(p)
